@@ -25,7 +25,10 @@ import (
 //
 //go:norace
 func (g *Engine) Start() error {
+	g.mux.Lock()
+	g.shutdown = false
 	g.connsUnix = make([]*Conn, MaxOpenFiles)
+	g.mux.Unlock()
 
 	// must be set before the pollers are started: the poller loop reads it
 	// once when it begins.
